@@ -112,7 +112,8 @@ def body_E1(ctx):
     merged = []
     for side in sorted(sides, reverse=bool(sh.get("reverse_sides"))):
         merged.extend(sides[side])
-    emitted = [json.loads(data.decode("utf-8")) for _, data in rf.order]
+    # emission order, whatever the granularity of the destination's write() calls
+    emitted = [json.loads(ln.decode("utf-8")) for ln in b"".join(data for _, data in rf.order).split(b"\n") if ln]
     check_forest(ctx, it, merged, emitted)
     if it.n_actions >= 2 or it.n_failed or it.n_handoffs:
         ctx.nontrivial((json.dumps(sh, sort_keys=True), tuple(ctx.trace)))
@@ -127,6 +128,35 @@ def E1() -> bool:
     post: _
     """
     return run(body_E1, "X", {})
+
+
+# -- E2: threads sharing one file destination -------------------------------------------------
+def body_E2(ctx):
+    """C05 E1's thread programs (own tasks, or continuing main's task through preserve_context),
+    all logging to ONE FileDestination whose file lets the scheduler switch threads after every
+    write(): each line of the file decodes, and the parsed forest equals the schedule-independent
+    expectation (checked inside c05.body_E1), with every task complete."""
+    from props import c05
+
+    received, sched = c05.body_E1(ctx)
+    try:
+        tasks = list(Parser.parse_stream(received))
+    except Exception as e:
+        ctx.fail("parser raised %r on the file written by the threads (%s)" % (e, sched.render()))
+    ctx.check(all(t.is_complete() for t in tasks), "a task read back from the shared file is incomplete (%s)", sched.render())
+    ctx.reached("threads-file")
+
+
+def E2() -> bool:
+    """
+    post: _
+    """
+    return run(body_E2, "X", {})
+
+
+def _e2_shards(tier):
+    base = {"file_dest": 1, "workers": 2, "P": 1 if tier == "quick" else 2, "preserve": 1, "handover": 0}
+    return [dict(base, prefix=p) for p in enumerate_prefixes(body_E2, "X", {}, base, 4 if tier == "quick" else 6)]
 
 
 # -- L1: value pass-through with symbolic values (Mode S) -------------------------
@@ -236,6 +266,18 @@ OBLIGATIONS = [
             "quick": "all op sequences (open/close/message/raise-caught-j-levels-out) of <= 4 ops, depth <= 3, under 20 style profiles (baseline + every single-dimension variation of open style(6)/message style(5)/exception class(8)/extra finish(3)); hand-offs with separate files, both merge orders, bytes/text ids; re-entry of the current action's context()/run(); deferred hand-offs (id made inside an action, work logged after it ended); actions with the default empty action type; unusual field names (non-ASCII, spaces, names eliot uses on other message kinds); a Logger passed positionally; actions started, used and finished without ever being entered; continue_task with a custom action type; every <= 2-op program with per-step free styles",
             "thorough": "<= 6 ops, depth <= 4 under the same 20 profiles; hand-offs <= 5 ops; free styles <= 3 ops",
         },
+    ),
+    Ob(
+        "E2",
+        E2,
+        body_E2,
+        "X",
+        desc="two worker threads + main write their trees to one FileDestination; thread switches after every file.write(); the file parses back to the expected forest",
+        functions=["FileDestination.__call__", "Destinations.send", "Logger.write", "preserve_context", "Action.continue_task", "Parser.parse_stream"],
+        shards=_e2_shards,
+        twin=[{"file_dest": 1, "workers": 2, "P": 1, "preserve": 1, "handover": 0, "twin_label": "threads-file"}],
+        timeout={"quick": 100, "thorough": 1200},
+        bounds={"quick": "main + 2 worker threads x 3 programs x {own task, preserve_context}, <= 1 preemption at eliot API entry points and after every file.write()", "thorough": "<= 2 preemptions"},
     ),
     Ob(
         "L1",
